@@ -6,9 +6,11 @@ ID = "C10"
 LEAN_MODULES = ["HgVerif.Props.C10"]
 THEOREMS = [
     "HgVerif.MapNode.map_no_lost_child_wakeup",
+    "HgVerif.MapNode.map_due_child_is_candidate",
     "HgVerif.MapNode.map_wakeup_honoured",
     "HgVerif.MapNode.map_keys_mirror",
     "HgVerif.MapNode.map_per_key",
+    "HgVerif.MapNode.map_per_key_ticks",
     "HgVerif.MapNode.map_non_interference",
     "HgVerif.MapNode.map_fresh_after_readd",
     "HgVerif.MapNode.map_error_keyed",
@@ -678,48 +680,48 @@ def _spec(case, out):
             bad.append("cycle %d: driver reported %s" % (cyc - 1, o))
             continue
         f = _fields(o)
-        tag = "[C10-A] " if fn == "negecho" else ""
+        tag = "[C10-A]" if fn == "negecho" else ""
         got = _parse_dict(f.get("rec"))
         grem, gmod = (sorted(got[0]), got[1]) if got else ([], {})
         if grem != sorted(exp_rem) or gmod != exp_mod:
-            bad.append("%scycle %d: recorded delta %s; run alone the keys give removed=%s modified=%s" %
-                       (tag, cyc - 1, f.get("rec"), sorted(exp_rem), dict(sorted(exp_mod.items()))))
+            bad.append("%s the recorded delta differs from what the keys give when run alone: cycle %d recorded %s, reference removed=%s modified=%s" %
+                       (tag or "[C10-delta]", cyc - 1, f.get("rec"), sorted(exp_rem), dict(sorted(exp_mod.items()))))
         gval = _parse_dict(f.get("val"))
         if gval is not None:
             valid = {k: v for k, v in gval[1].items() if v != "_"}
             if set(gval[1]) != set(refs):
-                bad.append("cycle %d: the output holds elements for %s, the live keys are %s" % (cyc - 1, sorted(gval[1]), sorted(refs)))
+                bad.append("[C10-keys] the output key set does not mirror the live keys: cycle %d holds elements for %s, live keys %s" % (cyc - 1, sorted(gval[1]), sorted(refs)))
             elif valid != outd:
-                bad.append("%scycle %d: output value %s; per-key reference %s" % (tag, cyc - 1, dict(sorted(valid.items())), dict(sorted(outd.items()))))
+                bad.append("%s the output value differs from the per-key reference: cycle %d value %s, reference %s" % (tag or "[C10-value]", cyc - 1, dict(sorted(valid.items())), dict(sorted(outd.items()))))
         elif refs or outd:
-            bad.append("cycle %d: the output is not valid although keys %s are live" % (cyc - 1, sorted(refs)))
+            bad.append("[C10-keys] the output is not valid although keys are live: cycle %d keys %s" % (cyc - 1, sorted(refs)))
         stops, starts, us, ust = _parse_events(f.get("ev", "-"))
         if key:
             if stops != removed or starts != added or us or ust:
-                bad.append("cycle %d: child lifecycle events %s; key set removed %s added %s" % (cyc - 1, f.get("ev"), removed, added))
+                bad.append("[C10-lifecycle] child start/stop events do not follow the key set: cycle %d events %s, key set removed %s added %s" % (cyc - 1, f.get("ev"), removed, added))
         elif us != len(removed) or ust != len(added):
-            bad.append("cycle %d: %d children stopped / %d started; key set removed %d added %d" % (cyc - 1, us, ust, len(removed), len(added)))
+            bad.append("[C10-lifecycle] child start/stop counts do not follow the key set: cycle %d stopped %d started %d, key set removed %d added %d" % (cyc - 1, us, ust, len(removed), len(added)))
         runs = f.get("run", "-")
         if key:
             grun = set() if runs == "-" else {int(x) for x in runs.split(",")}
             if grun != exp_run:
                 extra, missing = sorted(grun - exp_run), sorted(exp_run - grun)
-                bad.append("%scycle %d: children evaluated %s; keys with own input ticks / due wake-ups %s (extra %s, missing %s)" %
-                           (tag, cyc - 1, sorted(grun), sorted(exp_run), extra, missing))
+                bad.append("%s the children evaluated are not the keys with own input ticks / due wake-ups: cycle %d evaluated %s, expected %s (extra %s, missing %s)" %
+                           (tag or "[C10-isolation]", cyc - 1, sorted(grun), sorted(exp_run), extra, missing))
         else:
             n = 0 if runs == "-" else len(runs.split(","))
             if n != len(exp_run):
-                bad.append("%scycle %d: %d children evaluated; %d keys have own input ticks / due wake-ups" % (tag, cyc - 1, n, len(exp_run)))
+                bad.append("%s the number of children evaluated is not the number of keys with own input ticks / due wake-ups: cycle %d evaluated %d, expected %d" % (tag or "[C10-isolation]", cyc - 1, n, len(exp_run)))
         if f.get("act") != str(len(refs)):
-            bad.append("cycle %d: %s started children, %d live keys" % (cyc - 1, f.get("act"), len(refs)))
+            bad.append("[C10-lifecycle] started children differ from live keys: cycle %d started %s, live %d" % (cyc - 1, f.get("act"), len(refs)))
         if err:
             ge = _parse_dict(f.get("erec"))
             gerem, gemod = (sorted(ge[0]), ge[1]) if ge else ([], {})
             if gerem != sorted(exp_erem) or gemod != exp_emod:
-                bad.append("cycle %d: recorded error delta %s; failing keys %s, removed %s" % (cyc - 1, f.get("erec"), exp_emod, sorted(exp_erem)))
+                bad.append("[C10-error] the recorded error delta is not keyed by the failing keys: cycle %d recorded %s, failing keys %s, removed %s" % (cyc - 1, f.get("erec"), exp_emod, sorted(exp_erem)))
             gev = _parse_dict(f.get("eval"))
             if (gev[1] if gev else {}) != errd:
-                bad.append("cycle %d: error dictionary %s; expected %s" % (cyc - 1, f.get("eval"), errd))
+                bad.append("[C10-error] the error dictionary differs from the per-key reference: cycle %d value %s, expected %s" % (cyc - 1, f.get("eval"), errd))
     if maxlive >= 3 and saw_rem and (saw_readd or saw_upd):
         feats.add("nontrivial")
     if saw_readd:
